@@ -49,7 +49,7 @@ ASSUMPTIONS = ["quantities whose value is a non-array object are compared by typ
                "histories of bounded length over the quantities reachable by introspection; a leak needing a longer sequence is missed",
                "the in-place F+H fast path of curvature_reg_matrix (buffer reused, cache entry dropped) is legitimate: later reads recompute F"]
 QUICK_JOBS = 12
-MIN_MONITORS = {"*": {"input_fingerprint": 200, "cache.hit_unchanged": 200, "order.matches_baseline": 200, "derived.consistent": 100, "derived.matches_rebuild": 100,
+MIN_MONITORS = {"*": {"history.same_bytes_other_shape": 50, "input_fingerprint": 200, "cache.hit_unchanged": 200, "order.matches_baseline": 200, "derived.consistent": 100, "derived.matches_rebuild": 100,
                       "defaults.unchanged": 3, "deterministic": 10, "deterministic.simulator_seed": 4, "sweep.apply_over_sampling_keeps_own_scheme": 2,
                       "param.order_independent": 200, "param.repeat_equal": 200, "param.grid_argument_untouched": 20, "param.arguments_untouched": 10,
                       "param.earlier_results_keep_their_value": 10, "global_state.numpy_error_handling_unchanged": 10}}
@@ -448,7 +448,45 @@ def run_derive(ctx, u):
                     v, w_ = read(d, n), read(rb, n)
                     ctx.check(v == w_, "derived.matches_rebuild", structure=sn, operation=on, quantity=n, variant=variant, derived=v[:70], rebuilt_from_contents=w_[:70])
             ctx.case(seed, sn, on, nontrivial=True, cls=["derive", "derive:" + on, "class:" + sn], sample=lambda: {"structure": sn, "operation": on, "quantities": len(names)})
+    run_same_bytes(ctx, seed)
     run_derive_datasets(ctx, seed)
+
+
+def run_same_bytes(ctx, seed):
+    """Masks with byte-identical flattened content on frames of different shapes, queried one after the other in one process: what
+    one mask reports must not depend on the masks queried before it (judged against plain NumPy, not against the library)."""
+    aa = ctx.aa
+    from harness import ref
+    r = gen.rng_for(ctx.seed, NO, 77, seed)
+    for j in range(6):
+        H, W = [(4, 6), (3, 8), (6, 8), (5, 4), (2, 9), (6, 9)][(j + seed) % 6]
+        if not ctx.begin("same_bytes:%d:%d" % (seed, j)):
+            continue
+        flat = (r.random(H * W) < (0.0 if j % 3 == 0 else 0.4))
+        if flat.all():
+            flat[0] = False
+        shapes = [(H, W), (W, H)] + ([(2, H * W // 2)] if (H * W) % 2 == 0 and H != 2 else [])
+        if j % 2:
+            shapes = shapes[::-1]
+        for shape in shapes + shapes[:1]:
+            m = flat.reshape(shape).copy()
+            W_ = dict(mask=m, queried_before=[list(x) for x in shapes], this_shape=list(shape))
+            mk = aa.Mask2D(mask=m.copy(), pixel_scales=(0.5, 2.0), origin=(1.0, -1.0))
+            exp = np.argwhere(~m)
+            got = np.asarray(mk.derive_indexes.native_for_slim)
+            ctx.check(got.shape == exp.shape and np.array_equal(got, exp), "history.same_bytes_other_shape", quantity="derive_indexes.native_for_slim", expected=exp, got=got, **W_)
+            sfn = np.asarray(mk.derive_indexes.slim_for_native) if hasattr(mk.derive_indexes, "slim_for_native") else None
+            for nm_slim, nm_nat in (("edge_slim", "edge_native"), ("border_slim", "border_native")):
+                try:
+                    sl, nat = np.asarray(getattr(mk.derive_indexes, nm_slim)), np.asarray(getattr(mk.derive_indexes, nm_nat))
+                    ok = nat.shape == (len(sl), 2) and np.array_equal(nat, exp[sl])
+                    ctx.check(ok, "history.same_bytes_other_shape", quantity="derive_indexes." + nm_nat, expected=exp[sl] if ok is False and sl.max(initial=0) < len(exp) else None, got=nat, **W_)
+                except Exception as e:
+                    ctx.check(False, "history.same_bytes_other_shape", quantity="derive_indexes." + nm_nat, exception=repr(e)[:200], **W_)
+            g = np.asarray(aa.Grid2D.from_mask(mask=mk))
+            eg = ref.slim_centres(m, (0.5, 2.0), (1.0, -1.0))
+            ctx.check(g.shape == eg.shape and bool(np.all(np.abs(g - eg) <= 1e-12)), "history.same_bytes_other_shape", quantity="Grid2D.from_mask", **W_)
+        ctx.case("same_bytes", seed, j, nontrivial=True, cls=["same_bytes_other_shape", "frames:%d" % len(shapes)], sample=lambda: {"content_bits": int(flat.sum()), "shapes": [list(x) for x in shapes]})
 
 
 def run_derive_datasets(ctx, seed):
